@@ -1314,6 +1314,9 @@ class Interp:
         st2 = st.fork()
         desc = []
         is_pure = any(r.search(path) for r in self.pure)
+        # next() of a std iterator adapter held as an opaque value: the abstraction keeps no position for it, only where it
+        # was built (zip(chunks_exact_mut(s, 2), v.iter())); advancing it does not change that, so it is not havocked
+        std_iter_next = self.log_asserts and re.search(r"^<std::(iter|slice|vec|array|collections)::.* as std::iter::Iterator>::next$", path) is not None
         for a in args:
             desc.append(self.abstract(a, st2))
             if isinstance(a, Ref) and a.mut and not is_pure:
@@ -1321,6 +1324,8 @@ class Interp:
                 if base is not None:
                     try:
                         old = self.get_at(base, a.path)
+                        if std_iter_next and isinstance(old, Top):
+                            continue
                         new = None
                         if isinstance(old, Adt) and old.name in self.prog.adts_by_name and \
                                 self.prog.adts_by_name[old.name]["kind"] == "struct":
